@@ -166,6 +166,9 @@ fn model_tree(bits: u32) -> Node {
         insert(&mut root, &format!("odd/n{BAD_BYTE_MARKER}.slice"), Node::File(Kind::BadName));
         insert(&mut root, "odd/n\u{fffd}.slice", Node::File(Kind::Slice));
         insert(&mut root, "odd/plain.slice", Node::File(Kind::Slice));
+        // two different files whose paths differ only in the case of ASCII letters
+        insert(&mut root, "odd/Plain.slice", Node::File(Kind::Slice));
+        insert(&mut root, "ODD/plain.slice", Node::File(Kind::Slice));
     }
     root
 }
@@ -214,6 +217,9 @@ fn spellings(bits: u32) -> Vec<String> {
         v.push("pkg"); // a directory with the FIFO below it
         v.push("odd"); // a directory with a file whose name is not valid UTF-8, and its lossy twin
         v.push("odd/n\u{fffd}.slice"); // the twin listed directly
+        v.push("odd/plain.slice"); // three different files whose paths differ only in letter case
+        v.push("odd/Plain.slice");
+        v.push("ODD/plain.slice");
     }
     v.into_iter().map(String::from).collect()
 }
@@ -1003,7 +1009,7 @@ pub fn families(tier: &str) -> Vec<Box<dyn Family>> {
         Box::new(Lists::over("plain tree and tree {file-link, dir-link} x sources<=1 x references of 4..5 entries over 5 spellings (2 of one file, a directory)", pick(&|b| b == 0 || b == 6), (0, 1), (4, 5), Some(few_dir))),
     ];
     // entries that exist, are named *.slice and are neither a regular file nor a directory
-    let special: Box<dyn Family> = Box::new(Lists::new("trees {special-files} and {special-files, file-link, dir-link} (a FIFO pkg/pipe.slice, a link sub/null.slice to /dev/null, a file odd/n<0xFF>.slice whose name is not UTF-8 next to its lossy twin) x sources<=2 x references<=2", vec![SPECIAL_BIT, SPECIAL_BIT | 6], (0, 2), (0, 2)));
+    let special: Box<dyn Family> = Box::new(Lists::new("trees {special-files} and {special-files, file-link, dir-link} (a FIFO pkg/pipe.slice, a link sub/null.slice to /dev/null, a file odd/n<0xFF>.slice whose name is not UTF-8 next to its lossy twin, odd/plain.slice next to odd/Plain.slice and ODD/plain.slice) x sources<=2 x references<=2", vec![SPECIAL_BIT, SPECIAL_BIT | 6], (0, 2), (0, 2)));
     let mut v: Vec<Box<dyn Family>> = if tier == "quick" {
         vec![
             Box::new(Lists::new("32 trees without the cycle x sources<=2 x references<=2", acyclic, (0, 2), (0, 2))),
